@@ -1,4 +1,5 @@
 import RegalModel.Lemmas.DiffEdits
+import RegalModel.Lemmas.DiffTotal
 /-!
 # C16 — Text edits sent to the editor reproduce the intended text exactly
 
@@ -9,9 +10,9 @@ import RegalModel.Lemmas.DiffEdits
 * `computeEdits_correct` : whatever `ComputeEdits before after` returns, an LSP client applying those
                            whole-line edits to `before` obtains exactly `after`
 * `index_in_bounds`      : the array indices the Go code uses lie inside the allocated `V`
-* open: totality (`computeEdits … ≠ none`, i.e. the Go code does not panic / the search reaches (M,N) within
-  M+N rounds) needs Myers' furthest-reaching lemma and is not proved; `none` is never observed in the
-  exhaustive + random correspondence run, where a Go panic would show as a crash.
+* `operations_total`, `computeEdits_exact` : totality — the forward search reaches (M, N) within M + N rounds
+  (Lemmas/DiffTotal: candidates dominate, no entry of an unfinished round lies weakly beyond (M, N)), so
+  `ComputeEdits` always returns and the result is exact. Nothing of C16 is left open in the model.
 -/
 namespace RegalModel.Diff
 open List
@@ -110,6 +111,26 @@ theorem computeEdits_correct (before after : List Char) (es : List Edit)
     cases h
     obtain ⟨hr, hs⟩ := operations_correct _ _ ops ho
     rw [applyEdits_render _ _ 0 hs, hr, splitLines_flatten]
+
+/-- **operations_total**: `operations` returns for every pair of documents — in Go: `shortestEditSequence` never
+falls through to `return nil, 0` (after which `operations` would index a nil trace and panic) and `backtrack`
+stays inside the trace. Forward search reaches (M, N) within M + N rounds (Lemmas/DiffTotal: `ses_total`). -/
+theorem operations_total {α : Type} [DecidableEq α] (a b : List α) : ∃ ops, operations a b = some ops := by
+  unfold operations
+  split
+  · exact ⟨[], rfl⟩
+  · obtain ⟨trace, hs⟩ := ses_total a b
+    obtain ⟨recorded, hb⟩ := backtrack_total a b trace hs
+    simp only [hs, hb]
+    exact ⟨_, rfl⟩
+
+/-- **computeEdits_exact** (C16, full strength): for EVERY pair of texts `ComputeEdits` returns an edit list, and an
+LSP client applying it to `before` obtains exactly `after`. -/
+theorem computeEdits_exact (before after : List Char) :
+    ∃ es, computeEdits before after = some es ∧ applyEdits (splitLines before) 0 es = after := by
+  obtain ⟨ops, ho⟩ := operations_total (splitLines before) (splitLines after)
+  have : computeEdits before after = some (editsOfOps ops) := by simp [computeEdits, ho]
+  exact ⟨_, this, computeEdits_correct before after _ this⟩
 
 /-- identical texts produce no operation that changes anything: the rendered result is the text itself
 (corollary; the Go caller short-circuits on equality before calling ComputeEdits) -/
